@@ -668,4 +668,9 @@ def target(value_, label=''):
     from hypothesis import control
 
     if control.currently_in_test_context() and value_ == value_ and abs(value_) != float('inf'):
-        control.target(float(value_), label=label)
+        from hypothesis.errors import InvalidArgument
+
+        try:
+            control.target(float(value_), label=label)
+        except InvalidArgument:
+            pass                 # a second observation under the same label in one case (an oracle called twice): keep the first
